@@ -189,9 +189,27 @@ def replay(data):
     from htstabilizer.stabilizer import Stabilizer
     if inp.get("paulis"):
         a = Stabilizer(list(inp["paulis"]))
-        print("entangled:", [bool(a.is_qubit_entangled(q)) for q in range(a.num_qubits)])
+        n = a.num_qubits
+        gens = [P.from_label(l) for l in inp["paulis"]]
+        bad = 0
         if inp.get("other"):
-            print("equiv:", a.is_equivalent_mod_phase(Stabilizer(list(inp["other"]))))
-        return 1
+            og = [P.from_label(l) for l in inp["other"]]
+            got = bool(a.is_equivalent_mod_phase(Stabilizer(list(inp["other"]))))
+            want = P.canon_unsigned(n, gens) == P.canon_unsigned(n, og)
+            print(f"is_equivalent_mod_phase({inp['paulis']}, {inp['other']}) = {got}; groups equal mod signs: {want}")
+            bad += got != want
+        else:
+            supp = {(x | z) for x, z, _ in P.group_elements(n, gens)}
+            for q in range(n):
+                got, want = bool(a.is_qubit_entangled(q)), (1 << q) not in supp
+                if got != want:
+                    print(f"is_qubit_entangled({q}) = {got}, group has {'no ' if want else 'an '}element supported on qubit {q} alone")
+                    bad += 1
+            Xm, Zm = a.expand()
+            cols = {(sum((int(Xm[r, i]) & 1) << r for r in range(n)), sum((int(Zm[r, i]) & 1) << r for r in range(n))) for i in range(1 << n)}
+            if cols != {(x, z) for x, z, _ in P.group_elements(n, gens)}:
+                print("expand() does not list the group")
+                bad += 1
+        return 1 if bad else 0
     print("symbolic counterexample:", inp)
     return 1
